@@ -5,7 +5,10 @@
       - delay impulse response = the closed-form echo train (g^k at frame k D, zero elsewhere);
       - reverb = the Freeverb network written with history lists (SpecFreeverb.v, growth);
     plus sample-by-sample traces of every effect against the C13 effect models ([CTrace]), which
-    are the terms the C14 theorems are about. *)
+    are the terms the C14 theorems are about — single runs ([C13.Run.Case], any internal buffer
+    size and slicing, e.g. the compressor through slices of exact zeros) and runs across
+    [on_change_sample_rate] ([C13.Run.CaseSR]: coefficients of the new rate, state carried over
+    or lines rebuilt as [change_rate] says). *)
 From Coq Require Import ZArith QArith List Bool.
 From KV Require Import Base.IEEE Base.Outcome Base.Corr C13.ModelOps C19.ModelF32 C13.Run C14.SpecFreeverb C14.SpecQ.
 Import ListNotations.
